@@ -145,6 +145,19 @@ func NewProtocol[EK elgamal.EncryptionKey[EK, G, S], G algebra.PrimeGroupElement
 	return &Protocol[G, S]{maurerProtocol}, nil
 }
 
+// Verify checks an elcomop proof. The statement and the commitment are pairs in G x G; a decoded element with any
+// other number of components is rejected here, because the group operation of the Maurer verification equation is
+// only defined (and panics otherwise) for elements of equal arity.
+func (p *Protocol[G, S]) Verify(statement *Statement[G, S], commitment *Commitment[G, S], challengeBytes sigma.ChallengeBytes, response *Response[G, S]) error {
+	if statement == nil || commitment == nil {
+		return proofs.ErrInvalidArgument.WithMessage("invalid arguments")
+	}
+	if !p.ImageGroup().Contains(statement.X) || !p.ImageGroup().Contains(commitment.A) {
+		return proofs.ErrInvalidArgument.WithMessage("statement and commitment must be pairs of group elements")
+	}
+	return p.Protocol.Verify(statement, commitment, challengeBytes, response)
+}
+
 type anchor[G algebra.PrimeGroupElement[G, S], S algebra.PrimeFieldElement[S]] struct {
 	l  *num.Nat
 	id *constructions.FiniteDirectProductGroupElement[G, S]
